@@ -224,19 +224,23 @@ func lemmaRawRangePrefix(roots []*Node, r *Node, k int, i int) {
 //@   requires validating [C09,C07]: g != nil ==> g.enabledValidation
 //@   carries errc: errChan
 //@   carries result0: errChan
-//@   modifies out, wfail, counter.n, spText, errSent, ctxDoneSeen, gcRecv
+//@   modifies out, wfail, counter.n, spText, dryRoots, errSent, ctxDoneSeen, gcRecv
 //@   after make: spText := ""
 // (functional clause, per goroutine: what this goroutine hands to the writer is, root by root, the dry-run report
 // specDryRoot of the roots it received - counters reset per root; spText accumulates what is owed, as on the simple route)
+// dryRoots: the roots whose dry-run report the massive dry-run spreader has produced (appended together with spText)
+//@ ghost var dryRoots []*Node
 //@ closure gtree.colorizeSpreaderPipeline.spread#1
 //@   requires nn: cs != nil && cs.colorizeSpreaderSimple != nil && colorizeOK(cs.colorizeSpreaderSimple) && ctx != nil
 //@   requires start: spText == ""
-//@   modifies out, wfail, counter.n, spText, errSent, ctxDoneSeen, gcRecv
+//@   modifies out, wfail, counter.n, spText, dryRoots, errSent, ctxDoneSeen, gcRecv
 //@   after spreadBranch: spText := spText ++ specDryRoot(cs.colorizeSpreaderSimple.fileColor, cs.colorizeSpreaderSimple.dirColor, cs.colorizeSpreaderSimple.fileConsiderer.extensions, arg0)
+//@   after spreadBranch: dryRoots := dryRoots ++ seqof(arg0)
 //@ loop gtree.colorizeSpreaderPipeline.spread#1#1
 //@   invariant ok: colorizeOK(cs.colorizeSpreaderSimple) && bw != nil && bw.under == w
 //@   invariant sofar [C09]: out[w] ++ bw.pending == old(out[w]) ++ spText && wfail == old(wfail)
 //@   invariant reported [C14]: wfail && !old(wfail) ==> errSent
+//@   invariant every [C09]: len(old(gcRecv)) <= len(gcRecv) && len(old(dryRoots)) <= len(dryRoots) && drop(dryRoots, len(old(dryRoots))) == drop(gcRecv, len(old(gcRecv)))
 
 // stageSpread / stageWriter: the spreader stage that was started last, and the writer it was given (ghost, set by the
 // function that starts the stage - not by its goroutines -, so the caller can say which spreader a call went through)
@@ -258,10 +262,13 @@ func lemmaRawRangePrefix(roots []*Node, r *Node, k int, i int) {
 //@   modifies out, wfail, encTrace, encoders, errSent, ctxDoneSeen, gcRecv
 //@   ensures once [C04]: encoders == old(encoders) + 1
 //@   ensures reported [C14]: wfail && !old(wfail) ==> errSent
+//@   ensures every [C04]: !errSent && wfail == old(wfail) ==> len(encTrace) - len(old(encTrace)) == len(gcRecv) - len(old(gcRecv))
 //@ applies formattedSpreadPipelineBody to gtree.formattedSpreaderPipeline.spread[jsonNode]#1, gtree.formattedSpreaderPipeline.spread[yamlNode]#1, gtree.formattedSpreaderPipeline.spread[tomlNode]#1
 //@ loop gtree.formattedSpreaderPipeline.spread#1#1
 //@   invariant once [C04]: encoders == old(encoders) + 1
 //@   invariant reported [C14]: wfail && !old(wfail) ==> errSent
+//@   invariant every [C04]: len(old(gcRecv)) <= len(gcRecv) && (!errSent && wfail == old(wfail) ==> len(old(encTrace)) <= len(encTrace) && len(encTrace) - len(old(encTrace)) == len(gcRecv) - len(old(gcRecv)))
+//@   invariant each [C04]: !errSent && wfail == old(wfail) ==> (forall j int :: {encTrace[j]} len(old(encTrace)) <= j && j < len(encTrace) ==> isType(encTrace[j], $T) && as(encTrace[j], $T).Name == gcRecv[len(old(gcRecv)) + j - len(old(encTrace))].name)
 //@ field formattedSpreaderPipeline.encode follows encoderFactory
 //@ field formattedSpreaderPipeline.formattedRoot follows formattedRootFn
 //@ closure gtree.newJSONSpreaderPipeline#1
